@@ -115,9 +115,9 @@ def _fresh(spec, enc, fixed_names):
     """Freshly built graph + processor with the same fixed values (same node ids: only the history differs)"""
     b = build.build(spec)
     gp = build.processor(b, enc)
-    by_name = {dv.name: dv for dv in gp.all_des_vars}
-    for name, val in fixed_names.items():
-        gp.fix_des_var(by_name[name], val)
+    all_vars_ = list(gp.all_des_vars)
+    for idx, val in fixed_names.items():    # keyed by position: displayed names need not be unique
+        gp.fix_des_var(all_vars_[idx], val)
     o = Obs()
     o.b, o.gp = b, gp
     return o
@@ -269,7 +269,7 @@ def check_case(case):
         if vectors is None:
             vectors = lcg_vectors(meta_now, case.get('vseed', 0), 10)
         try:
-            fresh = _fresh(spec, enc, {meta_all[i]['name']: vv for i, vv in fixed.items()})
+            fresh = _fresh(spec, enc, dict(fixed))
         except Exception as e:  # noqa
             if exc_sig(e).endswith('@harness'):
                 raise
@@ -286,7 +286,7 @@ def check_case(case):
             ref = {}
             for j in idx:
                 try:
-                    f1 = _fresh(spec, enc, {meta_all[i]['name']: vv for i, vv in fixed.items()})
+                    f1 = _fresh(spec, enc, dict(fixed))
                     ref[j] = _table(f1, f1.gp, [vectors[j]])[0]
                 except Exception as e:  # noqa
                     if exc_sig(e).endswith('@harness'):
